@@ -30,4 +30,36 @@ theorem RProg.All.rsys {P : Res → Prop} (s : RSys) (h : ∀ r, P r) : (rsys s)
 /-- bind in do-notation is `RProg.bind` -/
 theorem RProg.bind_eq {α β : Type} (m : RProg α) (f : α → RProg β) : (m >>= f) = m.bind f := rfl
 
+
+/-- the same for general programs -/
+def Prog.All {α : Type} (P : α → Prop) : Prog α → Prop
+  | .ret a => P a
+  | .call _ k => ∀ r, Prog.All P (k r)
+
+theorem Prog.All.run {α : Type} {P : α → Prop} : ∀ (p : Prog α) (w : World), p.All P → P (p.run w).1
+  | .ret _, _, h => h
+  | .call s k, w, h => Prog.All.run (k _) _ (h _)
+
+theorem Prog.All.runF {α : Type} {P : α → Prop} (faults : Nat → Option Errno) :
+    ∀ (p : Prog α) (n : Nat) (w : World), p.All P → P (p.runF faults n w).1
+  | .ret _, _, _, h => h
+  | .call s k, n, w, h => by
+    simp only [Prog.runF]
+    split
+    · exact Prog.All.runF faults (k _) _ _ (h _)
+    · exact Prog.All.runF faults (k _) _ _ (h _)
+
+theorem Prog.All.bind {α β : Type} {P : α → Prop} {Q : β → Prop} : ∀ (m : Prog α) (f : α → Prog β),
+    m.All P → (∀ a, P a → (f a).All Q) → (m.bind f).All Q
+  | .ret a, f, hm, hf => hf a hm
+  | .call s k, f, hm, hf => fun r => Prog.All.bind (k r) f (hm r) hf
+
+theorem Prog.All.mono {α : Type} {P Q : α → Prop} (hpq : ∀ a, P a → Q a) : ∀ (p : Prog α), p.All P → p.All Q
+  | .ret a, h => hpq a h
+  | .call s k, h => fun r => Prog.All.mono hpq (k r) (h r)
+
+theorem Prog.All.trivial {α : Type} : ∀ (p : Prog α), p.All (fun _ => True)
+  | .ret _ => True.intro
+  | .call _ k => fun r => Prog.All.trivial (k r)
+
 end GA
